@@ -230,6 +230,9 @@ def bytes_(**kwargs):
                 raise ProphyError("too long")
             if _bytes._LIMIT is not None and len(value) > _bytes._LIMIT:
                 raise ProphyError("too long for its sizer")
+            if type(value) is not bytes:
+                """ a subclass may print and compare on its own: the field holds the plain value """
+                value = bytes.__getitem__(value, slice(None))
             if size and not bound:
                 return value.ljust(size, b'\x00')
             return value
